@@ -297,3 +297,89 @@ Proof.
     as ((wevs & wrs & W & R2 & _) & _ & Ed & Em & _ & _ & _ & _ & _ & _ & _ & _ & Hx).
   split; [exists wevs, wrs; auto|]. auto.
 Qed.
+
+(* ------------------------------------------------------------------ after the last drop *)
+Theorem last_drop cap handler evs s rs outs fuel :
+  run true (init_q cap handler) evs = Some (s, rs) -> q_handles s = 0 -> mu s < fuel ->
+  let s' := quiesce true fuel s outs in
+  (exists wevs wrs, Forall worker_side wevs /\ run true s wevs = Some (s', wrs)) /\
+  q_wk s' = WExited /\ sink_released s' = true /\
+  q_delivered s' = q_delivered s ++ answers (pending_ids s) outs /\
+  map fst (q_delivered s') = seq 0 (q_accepted s) /\
+  q_chan s' = [] /\ q_pill_pending s' = false.
+Proof.
+  intros R Hh Hmu s'.
+  destruct (eventually cap handler evs s rs outs fuel R Hmu)
+    as ((wevs & wrs & W & R2 & _) & _ & Ed & Em & _ & _ & Ech & _ & Epp & _ & _ & _ & Hx).
+  destruct (Hx Hh) as [A B].
+  split; [exists wevs, wrs; auto|]. auto 10.
+Qed.
+
+(* ------------------------------------------------------------------ panics *)
+Lemma answers_repeat (o : soutcome) ids : forall n, length ids <= n ->
+  answers ids (repeat o n) = map (fun i => (i, o)) ids.
+Proof.
+  induction ids as [|i r IH]; intros n Hn; [reflexivity|].
+  destruct n as [|n]; cbn [length] in Hn; [lia|].
+  cbn [repeat answers map]. rewrite IH; [reflexivity | lia].
+Qed.
+
+Lemma npanics_all_panic ids : npanics (map (fun i => (i, SPanic)) ids) = length ids.
+Proof. induction ids as [|i r IH]; cbn [map npanics length]; [reflexivity | rewrite IH; reflexivity]. Qed.
+
+(* the wrapped sink panics on EVERY remaining metric (also while a stop is pending): each is
+   consumed exactly once, in order, the panic count is exact, and the worker still ends
+   waiting (handle alive) or exited with the wrapped sink released (no handle left) *)
+Theorem all_panic cap handler evs s rs fuel :
+  run true (init_q cap handler) evs = Some (s, rs) -> mu s < fuel ->
+  let s' := quiesce true fuel s (repeat SPanic (length (pending_ids s))) in
+  q_delivered s' = q_delivered s ++ map (fun i => (i, SPanic)) (pending_ids s) /\
+  map fst (q_delivered s') = seq 0 (q_accepted s) /\
+  q_panics s' = q_panics s + length (pending_ids s) /\
+  (q_handles s <> 0 -> q_wk s' = WRecv) /\
+  (q_handles s = 0 -> q_wk s' = WExited /\ sink_released s' = true).
+Proof.
+  intros R Hmu s'.
+  destruct (eventually cap handler evs s rs (repeat SPanic (length (pending_ids s))) fuel R Hmu)
+    as ((wevs & wrs & W & R2 & R3) & _ & Ed & Em & _ & _ & _ & _ & _ & _ & _ & Hl & Hx).
+  fold s' in Ed, Em, Hl, Hx, R3.
+  rewrite answers_repeat in Ed by lia.
+  split; [exact Ed|]. split; [exact Em|]. split; [|auto].
+  rewrite (reach_panics _ _ _ _ _ R3), (reach_panics _ _ _ _ _ R), Ed, npanics_app, npanics_all_panic.
+  reflexivity.
+Qed.
+
+(* right after a panic the worker (respawned) waits in recv again and try_send behaves as ever *)
+Lemma after_panic fixed s s' r : step fixed s (EWFinish SPanic) = Some (s', r) ->
+  q_wk s' = WRecv /\ q_panics s' = S (q_panics s) /\
+  q_cap s' = q_cap s /\ q_chan s' = q_chan s /\ q_handles s' = q_handles s /\
+  (q_handles s <> 0 ->
+   exists s'', step fixed s' ETrySend = Some (s'', if room s' then ROk else RFull)).
+Proof.
+  intro H. destruct (step_cfg _ _ _ _ _ H) as [Ec _].
+  apply step_finish_spec in H.
+  destruct H as (id & _ & Ew & _ & _ & _ & Ep & Ech & Eh & _).
+  split; [exact Ew|]. split; [lia|]. split; [exact Ec|]. split; [exact Ech|]. split; [exact Eh|].
+  intro L. apply trysend_spec. congruence.
+Qed.
+
+(* ... and in a reachable state there is room again unless the bounded queue is full *)
+Lemma after_panic_room cap handler evs s rs :
+  run true (init_q cap handler) (evs ++ [EWFinish SPanic]) = Some (s, rs) ->
+  q_wk s = WRecv /\
+  room s = match cap with
+           | None => true
+           | Some 0 => true
+           | Some (S c) => length (q_chan s) <? S c
+           end.
+Proof.
+  intro R. pose proof R as R'. apply run_split in R'.
+  destruct R' as (s1 & rs1 & rs2 & R1 & R2 & _). cbn [run] in R2.
+  destruct (step true s1 (EWFinish SPanic)) as [[s2 x]|] eqn:E; [|discriminate].
+  injection R2 as <- _. destruct (after_panic _ _ _ _ E) as (Ew & _).
+  split; [exact Ew|]. rewrite room_spec, Ew.
+  destruct (run_cfg _ _ _ _ _ R) as [Ec _]. cbn in Ec. rewrite Ec.
+  destruct cap as [[|c]|]; try reflexivity.
+  destruct (reach_bound _ _ _ _ _ 0 R eq_refl) as [_ Hb].
+  destruct (q_chan s2); [reflexivity | cbn [length] in Hb; lia].
+Qed.
